@@ -309,10 +309,14 @@ let eval (kind : ostring) (ins : ostring list) : ostring list =
      | "L" -> show_fval (c10_dec_ieee (nat_of_int 2) b)
      | "K" -> show_fval (c10_dec80 b)
      | _ -> show_fval (c10_dec_ppc b)]
+  | "dec_read", [neg; mant; e10] ->
+    (* the 64-bit pattern of the double a decimal literal denotes: sign bit, then the model's 63 bits *)
+    [pad_hex 16 (c10_dec_read (neg = "1") (z_of_dec mant) (z_of_dec e10))]
   | "frt", [k; bits] ->
     let b = z_of_dec bits in
     [match k with
-     | "L" -> hx ("0xL" ^ pad_hex 32 (c10_rt_ieee (nat_of_int 2) b))
+     | "L" -> (* the low 64 bits are written first (LLVM's layout of 0xL) *)
+       let h = pad_hex 32 (c10_rt_ieee (nat_of_int 2) b) in hx ("0xL" ^ Stdlib.String.sub h 16 16 ^ Stdlib.String.sub h 0 16)
      | "K" -> (match c10_rt80 b with Some z -> hx ("0xK" ^ pad_hex 20 z) | None -> "inexact")
      | _ -> (let (code, z) = c10_rt_ppc b in match int_of_nat code with 0 -> "ParsePanic" | 1 -> "Panic" | _ -> hx ("0xM" ^ pad_hex 32 z))]
   | _ -> failwith ("unknown kind " ^ kind)
